@@ -67,14 +67,17 @@ ENT = {}       # name -> entity class
 ATTR = {}      # 'A.b' -> Attribute
 CTX = {'any': None, 'user': None, 'roles': {}, 'labels': {}}
 NPATHS = 0
+class _Null(object):
+    def __enter__(self): return self
+    def __exit__(self, *a): return False
 
 # ---------------------------------------------------------------------------------- facts of the model (reference side)
 SUB = {'A': ('A', 'A2'), 'A2': ('A2',), 'B': ('B',)}
-ATTR_ENT = {'A.id': 'A', 'A.x': 'A', 'A.h': 'A', 'A.b': 'A', 'A2.y': 'A2', 'B.id': 'B', 'B.a_set': 'B'}
+ATTR_ENT = {'A.id': 'A', 'A.x': 'A', 'A.h': 'A', 'A.b': 'A', 'A.classtype': 'A', 'A2.y': 'A2', 'B.id': 'B', 'B.a_set': 'B'}
 REVERSE = {'A.b': 'B.a_set', 'B.a_set': 'A.b'}
 HIDDEN = ('A.h',)
 ENT_NAMES = ('A', 'A2', 'B')
-ATTR_NAMES = ('A.id', 'A.x', 'A.h', 'A.b', 'A2.y', 'B.id', 'B.a_set')
+ATTR_NAMES = ('A.id', 'A.x', 'A.h', 'A.b', 'A.classtype', 'A2.y', 'B.id', 'B.a_set')
 OBJ_NAMES = ('a', 'a2', 'b')
 OBJ_ENT = {'a': 'A', 'a2': 'A2', 'b': 'B'}
 QUERIES = ('view', 'edit', 'create', 'delete')      # can_view, can_edit, can_create, can_delete
@@ -125,8 +128,11 @@ def setup():
     g['A'], g['A2'], g['B'] = A, A2, B
     db.generate_mapping(check_tables=False)
     ENT.update(A=A, A2=A2, B=B)
-    ATTR.update({'A.id': A.id, 'A.x': A.x, 'A.h': A.h, 'A.b': A.b, 'A2.y': A2.y, 'B.id': B.id, 'B.a_set': B.a_set})
+    ATTR.update({'A.classtype': A.classtype, 'A.id': A.id, 'A.x': A.x, 'A.h': A.h, 'A.b': A.b, 'A2.y': A2.y, 'B.id': B.id, 'B.a_set': B.a_set})
     core.time = lambda: 0.0
+    if os.environ.get('C34_MUTANT'):          # canary runs only (see checks/h_c34_canary.py); unset in ./check
+        from checks import h_c34_canary
+        h_c34_canary.apply(core, os.environ['C34_MUTANT'])
     del core.usergroup_functions[:], core.userrole_functions[:], core.objlabel_functions[:]
 
     @core.user_groups_getter()                 # applies to every user
@@ -330,36 +336,31 @@ def _can():
     return CAN
 
 
-def ask(rules, userkind, g_any, g_user, roles, labels, kind, queries=QUERIES):
-    """-> list (one per rule iteration order) of {(query, target): [first answer, second answer]} from the real code.
-    Called with the tracer off; the declarations and the first pass of questions of the first order run traced."""
+KIND_NAMES = {'entity': ENT_NAMES, 'attr': ATTR_NAMES, 'object': OBJ_NAMES}
+
+
+def set_context(g_any, g_user, roles, labels):
     CTX['any'], CTX['user'] = form(g_any), form(g_user)
     CTX['roles'] = {o: form(v) for o, v in roles.items()}
     CTX['labels'] = {o: form(v) for o, v in labels.items()}
-    names = {'entity': ENT_NAMES, 'attr': ATTR_NAMES, 'object': OBJ_NAMES}[kind]
-    can = _can()
+
+
+def both_orders(rules, body, trace_decl=False):
+    """Run body(objects, traced_first) once per iteration order of the declared rules.  The rules live in Python sets
+    ordered by object identity, so they are re-declared (earlier AccessRule objects kept alive) until every rule set
+    with two rules iterates in the reverse order of the first declaration.  A fresh db_session per order."""
     keep, results, first_sig = [], [], None
-    for attempt in range(200):
+    for attempt in range(400):
         reset_rules()
-        if attempt == 0:
+        if attempt == 0 and trace_decl:
             with _traced(): objs = declare(rules)
         else: objs = declare(rules)
-        keep.append(objs)                      # keep earlier rule objects alive: new ones get new identities
+        keep.append(objs)
         sig = order_signature(objs)
         if first_sig is None: first_sig = sig
         elif not all(s == tuple(reversed(f)) for s, f in zip(sig, first_sig)): continue
         with Session() as o:
-            user = None if userkind == 'none' else User() if userkind == 'plain' else o[userkind]
-            target = (lambda n: ENT[n]) if kind == 'entity' else (lambda n: ATTR[n]) if kind == 'attr' else (lambda n: o[n])
-            got = {}
-            pairs = [(q, n, target(n)) for q in queries for n in names]
-            if not results:
-                with _traced():
-                    for q, n, t in pairs: got[q, n] = [can[q](user, t)]
-            else:
-                for q, n, t in pairs: got[q, n] = [can[q](user, t)]
-            for q, n, t in reversed(pairs): got[q, n].append(can[q](user, t))
-            results.append(got)
+            results.append(body(o, not results))
         if not first_sig or len(results) == 2: break
     else:
         raise RuntimeError('could not obtain the reversed rule order')
@@ -367,33 +368,54 @@ def ask(rules, userkind, g_any, g_user, roles, labels, kind, queries=QUERIES):
     return results
 
 
-def expected(rules, userkind, g_any, g_user, roles, labels, kind, queries=QUERIES):
-    """{(query, target): (lower, exact, upper)}"""
+def ask(rules, userkind, g_any, g_user, roles, labels, kinds, queries=QUERIES, trace_decl=False):
+    """-> list (one per rule iteration order) of {(query, kind, target): [first answer, second answer]} from the real
+    code.  Called with the tracer off; the first pass of questions of the first order (and, with trace_decl, the
+    declarations) run with the tracer on."""
+    set_context(g_any, g_user, roles, labels)
+    can = _can()
+
+    def body(o, first):
+        user = None if userkind == 'none' else User() if userkind == 'plain' else o[userkind]
+        tgt = {'entity': ENT, 'attr': ATTR, 'object': o}
+        pairs = [(q, k, n, tgt[k][n]) for q in queries for k in kinds for n in KIND_NAMES[k]]
+        got = {}
+        if first:
+            with _traced():
+                for q, k, n, t in pairs: got[q, k, n] = [can[q](user, t)]
+        else:
+            for q, k, n, t in pairs: got[q, k, n] = [can[q](user, t)]
+        for q, k, n, t in reversed(pairs): got[q, k, n].append(can[q](user, t))      # repeated check
+        return got
+    return both_orders(rules, body, trace_decl)
+
+
+def expected(rules, userkind, g_any, g_user, roles, labels, kinds, queries=QUERIES):
+    """{(query, kind, target): (lower, exact, upper)}"""
     ug = user_groups_of(userkind, g_any, g_user)
     ur = roles_of_user(userkind, roles)
     ol = {o: set(labels.get(o, ())) for o in OBJ_NAMES}
     out = {}
     for q in queries:
-        if kind == 'entity':
-            for n in ENT_NAMES:
-                v = any(ref_entity(rules, ug, p, n) for p in q_perms(q)); out[q, n] = (v, v, v)
-        elif kind == 'object':
-            for n in OBJ_NAMES:
-                v = any(ref_object(rules, ug, ur, ol, p, n) for p in q_perms(q)); out[q, n] = (v, v, v)
-        else:
-            for n in ATTR_NAMES:
-                trip = [ref_attr(rules, ug, p, n) for p in q_perms(q)]
-                out[q, n] = tuple(any(t[i] for t in trip) for i in range(3))
+        for kind in kinds:
+            for n in KIND_NAMES[kind]:
+                if kind == 'entity':
+                    v = any(ref_entity(rules, ug, p, n) for p in q_perms(q)); out[q, kind, n] = (v, v, v)
+                elif kind == 'object':
+                    v = any(ref_object(rules, ug, ur, ol, p, n) for p in q_perms(q)); out[q, kind, n] = (v, v, v)
+                else:
+                    trip = [ref_attr(rules, ug, p, n) for p in q_perms(q)]
+                    out[q, kind, n] = tuple(any(t[i] for t in trip) for i in range(3))
     return out
 
 
-def mismatches(rules, userkind, g_any, g_user, roles, labels, kind, mode='exact', skip=None, queries=QUERIES):
-    """list of (query, target, order index, answers, (lower, exact, upper)) where the real code leaves the reference"""
-    exp = expected(rules, userkind, g_any, g_user, roles, labels, kind, queries)
+def mismatches(rules, userkind, g_any, g_user, roles, labels, kinds, mode='exact', skip=None, queries=QUERIES, trace_decl=False):
+    """list of (query, kind, target, order index, answers, (lower, exact, upper)) where the real code leaves the reference"""
+    exp = expected(rules, userkind, g_any, g_user, roles, labels, kinds, queries)
     bad = []
-    for i, got in enumerate(ask(rules, userkind, g_any, g_user, roles, labels, kind, queries)):
+    for i, got in enumerate(ask(rules, userkind, g_any, g_user, roles, labels, kinds, queries, trace_decl)):
         for key, answers in got.items():
-            if skip is not None and skip(key[1]): continue
+            if skip is not None and skip(key[1], key[2]): continue
             lo, ex, up = exp[key]
             for a in answers:
                 if a is not True and a is not False: good = False
@@ -401,17 +423,25 @@ def mismatches(rules, userkind, g_any, g_user, roles, labels, kind, mode='exact'
                 elif mode == 'deny': good = up or not a
                 else: good = a or not lo
                 if not good:
-                    bad.append((key[0], key[1], i, tuple(answers), exp[key])); break
+                    bad.append((key[0], key[1], key[2], i, tuple(answers), exp[key])); break
     return bad
 
 
-def check(rules, kind, mode='exact', userkind='plain', g_any=(), g_user=(), roles=None, labels=None, skip=None, queries=QUERIES):
+LAST = {}          # what the last explored path asked and found (read by checks/c34.py: explain())
+
+
+def check(rules, kinds, mode='exact', userkind='plain', g_any=(), g_user=(), roles=None, labels=None, skip=None,
+          queries=QUERIES, trace_decl=False):
     global NPATHS
     NPATHS += 1
-    args = (rules, userkind, tuple(g_any), tuple(g_user), roles or {}, labels or {}, kind)
+    if isinstance(kinds, str): kinds = (kinds,)
+    args = (rules, userkind, tuple(g_any), tuple(g_user), roles or {}, labels or {}, tuple(kinds))
     with _untraced():
-        if not concrete(args): raise RuntimeError('symbolic value left in decoded declarations: %s' % BAD)
-        return not mismatches(*args, mode=mode, skip=skip, queries=queries)
+        if not concrete(args): raise RuntimeError('symbolic value left in the decoded declarations: %s' % BAD)
+        bad = mismatches(*args, mode=mode, skip=skip, queries=queries, trace_decl=trace_decl)
+        LAST.clear()
+        LAST.update(rules=rules, userkind=userkind, g_any=args[2], g_user=args[3], roles=args[4], labels=args[5], mode=mode, bad=bad)
+        return not bad
 
 
 def excluded_somewhere(rules):
@@ -424,11 +454,13 @@ def excluded_somewhere(rules):
 
 # =================================================================================================== harnesses
 # Convention for the "match" selectors m1/m2: the user is in group g1 only; m = True -> the rule asks for no group,
-# m = False -> the rule asks for group g2 (which the user lacks).  Group-set semantics proper are in `groups_*`.
+# m = False -> the rule asks for group g2 (which the user lacks).  Group-set semantics proper are in `groups`.
 def _grp(m): return () if m else ('g2',)
+def _one(flag, name): return (name,) if flag else ()
 
 
-# ---- entity targets: two rules; symbolic permission, entity list, match, excluded entity of both rules
+# ---- entity targets: two rules; symbolic permission, entity list, match, excluded entity of both rules.
+#      The second rule also carries a role, a label and an excluded attribute, which an entity-level answer must ignore.
 def _entity(p1, e1, m1, x1, p2, e2, m2, x2):
     rules = [rule(pick(PERM_T[:N_P_ENT], p1), pick(ESET_T[:N_E_ENT], e1), _grp(m1), xe=pick(XE_T, x1)),
              rule(pick(PERM_T[:N_P_ENT], p2), pick(ESET_T[:N_E_ENT], e2), _grp(m2), xe=pick(XE_T, x2), roles=('r',), labels=('l',), xa='A.x')]
@@ -452,10 +484,11 @@ def entity_p1_edit(e1: int, m1: bool, x1: int, p2: int, e2: int, m2: bool, x2: i
 
 
 # ---- attribute targets: two rules; symbolic entity list, match, excluded entity, excluded attribute of both rules
-def _attr(mode, e1, m1, x1, a1, e2, m2, x2, a2, p2=0):
+#      (+ permission of the second rule); one harness per mode (exact / deny / grant) and entity list of the first rule.
+def _attr(mode, e1, m1, x1, a1, e2, m2, x2, a2, p2):
     rules = [rule('view', pick(ESET_T[:3], e1), _grp(m1), xe=pick(XE_T[:3], x1), xa=pick(XA_T[:N_XA_ATTR], a1)),
              rule(pick(PERM_T[:N_P_ATTR], p2), pick(ESET_T[:3], e2), _grp(m2), xe=pick(XE_T[:3], x2), xa=pick(XA_T[:N_XA_ATTR], a2))]
-    return check(rules, 'attr', mode, g_user=('g1',), queries=('view',) if not THOROUGH else QUERIES)
+    return check(rules, 'attr', mode, g_user=('g1',), queries=('view', 'edit'))
 
 
 def _mk_attr(mode, e1):
@@ -475,3 +508,263 @@ for _mode in ('exact', 'deny', 'grant'):
         _h = _mk_attr(_mode, _e1)
         globals()[_h.__name__] = _h
         ATTR_HARNESSES.append(_h.__name__)
+
+
+# ---- object targets
+def object_conditions(g1: bool, r1: bool, l1: bool, g2: bool, r2: bool, l2: bool, ug: bool, ur: bool, ol: bool) -> bool:
+    """
+    post: _
+    """
+    # rule 1 covers A, A2 and B, rule 2 only A and A2; every requirement of both rules and everything the getters
+    # return is symbolic.  Roles and labels differ between the objects (a, b: role iff ur; a2: role iff not ur;
+    # a, a2: label iff ol; b: label iff not ol) so that an answer computed from another object's roles/labels shows.
+    rules = [rule('view', ('A', 'B'), _one(g1, 'g1'), _one(r1, 'r'), _one(l1, 'l')),
+             rule('view', ('A',), _one(g2, 'g1'), _one(r2, 'r'), _one(l2, 'l'))]
+    if ur: roles = {'a': ('r',), 'a2': (), 'b': ('r',)}
+    else: roles = {'a': (), 'a2': ('r',), 'b': ()}
+    if ol: labels = {'a': ('l',), 'a2': ('l',), 'b': ()}
+    else: labels = {'a': (), 'a2': (), 'b': ('l',)}
+    return ok(check(rules, 'object', g_user=_one(ug, 'g1'), roles=roles, labels=labels))
+
+
+def _object_excl(rest, e1, m1, x1, e2, m2, x2):
+    rules = [rule('view', pick(ESET_T[:3], e1), _grp(m1), xe=pick(XE_T, x1)),
+             rule('view', pick(ESET_T[:3], e2), _grp(m2), xe=pick(XE_T, x2))]
+    skip = None
+    if rest:
+        region = excluded_somewhere(rules)
+        skip = lambda kind, n: OBJ_ENT[n] in region
+    return check(rules, 'object', g_user=('g1',), skip=skip)
+
+
+def object_exclusions(e1: int, m1: bool, x1: int, e2: int, m2: bool, x2: int) -> bool:
+    """
+    pre: 0 <= e1 < 3 and 0 <= x1 < N_XE and 0 <= e2 < 3 and 0 <= x2 < N_XE
+    post: _
+    """
+    return ok(_object_excl(False, e1, m1, x1, e2, m2, x2))
+
+
+def object_exclusions_rest(e1: int, m1: bool, x1: int, e2: int, m2: bool, x2: int) -> bool:
+    """
+    pre: 0 <= e1 < 3 and 0 <= x1 < N_XE and 0 <= e2 < 3 and 0 <= x2 < N_XE
+    post: _
+    """
+    return ok(_object_excl(True, e1, m1, x1, e2, m2, x2))
+
+
+USERKIND_T = ('none', 'plain', 'a', 'b')
+ROLE_T = ((), ('self',), ('r',), ('r', 'self'))
+
+
+def object_userkinds(uk: int, rr: int, ur: bool, rg: bool, ga: bool, gu: bool) -> bool:
+    """
+    pre: 0 <= uk < 4 and 0 <= rr < 4
+    post: _
+    """
+    # who asks: nobody (None), a plain User object, the object a itself, the object b itself (role 'self' on itself;
+    # the getter registered for class User does not apply to an entity instance; None gets no groups and no roles)
+    rules = [rule('view', ('A', 'B'), _one(rg, 'g1'), pick(ROLE_T, rr))]
+    roles = {'a': _one(ur, 'r'), 'a2': _one(ur, 'r'), 'b': _one(ur, 'r')}
+    return ok(check(rules, ('object', 'entity'), userkind=pick(USERKIND_T, uk), g_any=_one(ga, 'g1'), g_user=_one(gu, 'g1'),
+                    roles=roles, trace_decl=True))
+
+
+# ---- names: subset semantics of groups / roles / labels, one rule, two names, every getter form
+def groups(rg: int, ga: int, gu: int, uk: int) -> bool:
+    """
+    pre: 0 <= rg < 4 and 0 <= ga < 4 and 0 <= gu < 4 and 0 <= uk < 3
+    post: _
+    """
+    rules = [rule('view', ('A', 'B'), pick(NAMES2_T, rg))]
+    return ok(check(rules, ('entity', 'attr', 'object'), userkind=pick(USERKIND_T[:3], uk), g_any=pick(NAMES2_T, ga),
+                    g_user=pick(NAMES2_T, gu), queries=('view',), trace_decl=True))
+
+
+def roles(rr: int, ra: int, rb: int, uk: int) -> bool:
+    """
+    pre: 0 <= rr < 4 and 0 <= ra < 4 and 0 <= rb < 4 and 1 <= uk < 3
+    post: _
+    """
+    # what the rule asks for, what the user has on a and on b: subsets of {n1, n2} (a2: both names); the user is a
+    # plain object or the object a itself (then 'self' is added to its roles on a, which must not satisfy n1/n2)
+    rules = [rule('view', ('A', 'B'), (), pick(NAMES2_T, rr))]
+    rl = {'a': pick(NAMES2_T, ra), 'a2': ('n1', 'n2'), 'b': pick(NAMES2_T, rb)}
+    return ok(check(rules, 'object', userkind=pick(USERKIND_T[:3], uk), roles=rl, queries=('view',), trace_decl=True))
+
+
+def labels(rl: int, la: int, lb: int, l2: bool) -> bool:
+    """
+    pre: 0 <= rl < 4 and 0 <= la < 4 and 0 <= lb < 4
+    post: _
+    """
+    rules = [rule('view', ('A', 'B'), (), (), pick(NAMES2_T, rl))]
+    lab = {'a': pick(NAMES2_T, la), 'a2': _one(l2, 'n2'), 'b': pick(NAMES2_T, lb)}
+    return ok(check(rules, 'object', labels=lab, queries=('view',), trace_decl=True))
+
+
+# ---- permission names and the four can_* functions
+def permissions(p1: int, m1: bool, p2: int, m2: bool, e2: bool) -> bool:
+    """
+    pre: 0 <= p1 < 6 and 0 <= p2 < 6
+    post: _
+    """
+    rules = [rule(pick(PERM_T, p1), ('A', 'B'), _grp(m1)), rule(pick(PERM_T, p2), ('A',) if e2 else ('A', 'B'), _grp(m2))]
+    # relationship attributes are left to the attr_* harnesses (their answer depends on the reading, see module docstring)
+    return ok(check(rules, ('entity', 'attr', 'object'), g_user=('g1',), skip=lambda kind, n: n in REVERSE, trace_decl=True))
+
+
+# ---- to_json: an object the user may not view is never emitted
+SCEN_T = ('a', 'a+b', 'b+a_set', 'a2,b')
+EMITTED = {'a': ('a',), 'a+b': ('a', 'b'), 'b+a_set': ('b', 'a'), 'a2,b': ('a2', 'b')}
+
+
+def _to_json(rest, sc, e1, m1, x1, e2, m2, x2):
+    global NPATHS
+    NPATHS += 1
+    rules = [rule('view', pick(ESET_T[:3], e1), _grp(m1), xe=pick(XE_T[:3], x1)),
+             rule('edit', pick(ESET_T[:3], e2), _grp(m2), xe=pick(XE_T[:N_XE_JSON], x2))]
+    scen = pick(SCEN_T, sc)
+    with _untraced():
+        if not concrete((rules, scen)): raise RuntimeError('symbolic value left in the decoded declarations: %s' % BAD)
+        if rest and any(OBJ_ENT[n] in excluded_somewhere(rules) for n in EMITTED[scen]): return True
+        ug = user_groups_of('plain', (), ('g1',))
+        none = {o: set() for o in OBJ_NAMES}
+        viewable = {n: any(ref_object(rules, ug, none, none, p, n) for p in ('view', 'edit')) for n in OBJ_NAMES}
+        want_error = not all(viewable[n] for n in EMITTED[scen])
+        set_context((), ('g1',), {}, {})
+
+        def body(o, first):
+            core.set_current_user(User())
+            try:
+                if scen == 'a': data, inc = [o['a']], ()
+                elif scen == 'a+b': data, inc = [o['a']], (A.b,)
+                elif scen == 'b+a_set': data, inc = {'x': o['b']}, (B.a_set,)
+                else: data, inc = [o['a2'], o['b']], ()
+                try:
+                    with (_traced() if first else _Null()):
+                        text = db.to_json(data, include=inc, with_schema=False)
+                except core.PermissionError:
+                    return 'PermissionError'
+                objs = json.loads(text)['objects']
+                return sorted((cls, pk) for cls, d in objs.items() for pk in d)
+            finally:
+                core.set_current_user(None)
+        want = 'PermissionError' if want_error else sorted(({'a': 'A', 'a2': 'A2', 'b': 'B'}[n], {'a': '1', 'a2': '2', 'b': '1'}[n]) for n in EMITTED[scen])
+        got = both_orders(rules, body)
+        LAST.clear()
+        LAST.update(rules=rules, scenario=scen, want=want, got=got, viewable=viewable)
+        return all(g == want for g in got)
+
+
+N_XE_JSON = 4 if THOROUGH else 3
+
+
+def to_json_objects(sc: int, e1: int, m1: bool, x1: int, e2: int, m2: bool, x2: int) -> bool:
+    """
+    pre: 0 <= sc < 4 and 0 <= e1 < 3 and 0 <= x1 < 3 and 0 <= e2 < 3 and 0 <= x2 < N_XE_JSON
+    post: _
+    """
+    return ok(_to_json(False, sc, e1, m1, x1, e2, m2, x2))
+
+
+def to_json_objects_rest(sc: int, e1: int, m1: bool, x1: int, e2: int, m2: bool, x2: int) -> bool:
+    """
+    pre: 0 <= sc < 4 and 0 <= e1 < 3 and 0 <= x1 < 3 and 0 <= e2 < 3 and 0 <= x2 < N_XE_JSON
+    post: _
+    """
+    return ok(_to_json(True, sc, e1, m1, x1, e2, m2, x2))
+
+
+# ---- the schema part of to_json: exactly the viewable entities / attributes
+def schema_expected(rules, ug):
+    view_e = lambda e: any(ref_entity(rules, ug, p, e) for p in ('view', 'edit'))
+    view_a = lambda t: any(ref_attr(rules, ug, p, t)[1] for p in ('view', 'edit'))
+    out = {}
+    for e in ENT_NAMES:
+        if not view_e(e): continue
+        attrs = []
+        for t in ATTR_NAMES:
+            if ATTR_ENT[t] != e or not view_a(t): continue
+            r = REVERSE.get(t)
+            if r is not None and not (view_e(ATTR_ENT[r]) and view_a(r)): continue
+            attrs.append(t.split('.')[1])
+        out[e] = sorted(attrs)
+    return out
+
+
+def schema(e1: int, m1: bool, x1: int, a1: int, e2: int, a2: int) -> bool:
+    """
+    pre: 0 <= e1 < 3 and 0 <= x1 < 3 and 0 <= a1 < 3 and 0 <= e2 < 3 and 0 <= a2 < 3
+    post: _
+    """
+    global NPATHS
+    NPATHS += 1
+    rules = [rule('view', pick(ESET_T[:3], e1), _grp(m1), xe=pick(XE_T[:3], x1), xa=pick(XA_T[:3], a1)),
+             rule('view', pick(ESET_T[:3], e2), (), xa=pick(XA_T[:3], a2))]
+    with _untraced():
+        if not concrete(rules): raise RuntimeError('symbolic value left in the decoded declarations: %s' % BAD)
+        want = schema_expected(rules, user_groups_of('plain', (), ('g1',)))
+        set_context((), ('g1',), {}, {})
+
+        def body(o, first):
+            core.set_current_user(User())
+            try:
+                with (_traced() if first else _Null()):
+                    d = db._get_schema_dict()
+                return {e['name']: sorted(a['name'] for a in e['newAttrs']) for e in d}
+            finally:
+                core.set_current_user(None)
+        got = both_orders(rules, body)
+        LAST.clear()
+        LAST.update(rules=rules, want=want, got=got)
+        return ok(all(g == want for g in got))
+
+
+HARNESSES = (['entity_p1_view', 'entity_p1_edit'] + ATTR_HARNESSES +
+             ['object_conditions', 'object_exclusions', 'object_exclusions_rest', 'object_userkinds', 'groups', 'roles', 'labels',
+              'permissions', 'to_json_objects', 'to_json_objects_rest', 'schema'])
+
+
+# ------------------------------------------------------------------------------------------- classification of findings
+def explain(fn_name, cex):
+    """stable key for a counterexample of harness `fn_name` (re-runs it untraced and looks at what went wrong)"""
+    setup()
+    LAST.clear()
+    try:
+        if globals()[fn_name](**cex): return None
+    except Exception:
+        return None
+    rules = LAST.get('rules')
+    if rules is None: return None
+    if 'bad' in LAST:
+        keys = set()
+        ug = user_groups_of(LAST['userkind'], LAST['g_any'], LAST['g_user'])
+        for q, kind, n, order, answers, (lo, ex, up) in LAST['bad']:
+            got = answers[0] if answers[0] != ex else answers[-1]
+            if kind == 'object':
+                if got is True and OBJ_ENT[n] in excluded_somewhere(rules): keys.add('1:object-entity-exclusion-ignored')
+                else: keys.add('9:object-other')
+            elif kind == 'attr' and n in REVERSE:
+                if answers[0] != answers[-1]: keys.add('9:attr-repeated-check-differs')
+                elif got is True and not up: keys.add('1:attr-granted-though-neither-side-grants')
+                elif got is True:
+                    fwd = any(side(rules, ug, p, n) for p in q_perms(q))
+                    keys.add('2:attr-reverse-side-denial-ignored' if fwd else '3:attr-granted-by-reverse-side-only')
+                else: keys.add('4:attr-denied-though-both-sides-grant' if lo else '9:attr-other')
+            else: keys.add('9:%s-other' % kind)
+        return sorted(keys)[0].split(':', 1)[1] if keys else None
+    if 'scenario' in LAST:
+        if LAST['want'] == 'PermissionError' and any(g != 'PermissionError' for g in LAST['got']):
+            if any(OBJ_ENT[n] in excluded_somewhere(rules) and not LAST['viewable'][n] for n in EMITTED[LAST['scenario']]):
+                return 'object-entity-exclusion-ignored'
+            return 'to_json-emits-unviewable-object'
+        return 'to_json-other'
+    if 'want' in LAST:
+        extra_ok = True
+        for g in LAST['got']:
+            for e in set(g) | set(LAST['want']):
+                w, h = set(LAST['want'].get(e, ())), set(g.get(e, ()))
+                if (e in g) != (e in LAST['want']) or w - h or any(e + '.' + a not in REVERSE for a in h - w): extra_ok = False
+        return 'schema-lists-unviewable-relationship-attribute' if extra_ok else 'schema-other'
+    return None
